@@ -176,6 +176,11 @@ def _build_module(kind, items, layout='support-first'):
         # unrelated enums in the enclosing (global) scope that are called like the classes used as parameter types
         return [D.enum('Arg', ['A0', 'A1']), D.enum('Avoider', ['V0']), D.enum('Key', ['K0']),
                 D.ns('gt', support + [D.cls('Host', host_members)] + extra_classes + funcs)], exp
+    if layout == 'same-names-in-an-earlier-namespace':
+        # classes called like the argument classes exist in another namespace that is declared first
+        return [D.ns('aa', [D.cls('Arg', [D.ctor('Arg')]), D.cls('Avoider', [D.ctor('Avoider')]), D.cls('Key', [D.ctor('Key')]),
+                            D.cls('Substring', [D.ctor('Substring')]), D.enum('Kind', ['Other'])]),
+                D.ns('gt', support + [D.cls('Host', host_members)] + extra_classes + funcs)], exp
     if layout == 'support-last':
         # the enum and the argument class are declared after everything that uses them
         body = [D.cls('Host', host_members)] + extra_classes + funcs + support
@@ -370,6 +375,11 @@ def check_unit(case):
             for w_ in wantu:
                 w_['targ'] = sc(w_['targ'])
             gotu = [{kk: u[kk] for kk in ('fn', 'targ', 'idx', 'name', 'deref')} for u in f['unwraps']]
+            for u in f['unwraps']:
+                # an object argument is read from the property ptr_<namespaces and name of its class> of the MATLAB object
+                if u['fn'] in ('unwrap_shared_ptr', 'unwrap_ptr') and '<' not in u['targ'] and u.get('ptr') is not None \
+                        and u['ptr'] != u['targ'].replace('::', ''):
+                    add('C06|handle-property|%s' % kind, 'arity %d: parameter %s of type %s is read from property ptr_%s' % (ar, u['name'], u['targ'], u['ptr']), e)
             if len(gotu) != len(wantu):
                 add('C06|unwrap-count|%s' % kind, 'arity %d: routine %s unwraps %d arguments: %r' % (ar, rname, len(gotu), gotu), e)
             else:
@@ -502,6 +512,7 @@ def run(ctx):
         for i in range(0, len(its), per):
             cases.append({'kind': kind, 'items': its[i:i + per], 'scope': 'gt', 'layout': 'reopened-ns'})
             cases.append({'kind': kind, 'items': its[i:i + per], 'scope': 'gt', 'layout': 'global-names-like-classes'})
+            cases.append({'kind': kind, 'items': its[i:i + per], 'scope': 'gt', 'layout': 'same-names-in-an-earlier-namespace'})
     res = ctx.map(check_unit, cases, chunksize=1)
     ncall = sum(len(c['items']) for c in cases)
     return {
